@@ -1,11 +1,14 @@
 import SeqVerif.Consistency.ActiveLids
 import SeqVerif.Consistency.AggCodecCons
+import SeqVerif.Consistency.AggSourceCons
 import SeqVerif.Consistency.ApiAsyncCons
 import SeqVerif.Consistency.ApiSearchCons
 import SeqVerif.Consistency.BinSearch
 import SeqVerif.Consistency.BinSearchSort
 import SeqVerif.Consistency.Borders
+import SeqVerif.Consistency.BufWriterCons
 import SeqVerif.Consistency.BulkConfigCons
+import SeqVerif.Consistency.BulkIDCons
 import SeqVerif.Consistency.CacheW2
 import SeqVerif.Consistency.CancelledStart
 import SeqVerif.Consistency.CaseFold
@@ -34,6 +37,7 @@ import SeqVerif.Consistency.Int64
 import SeqVerif.Consistency.InverserPool
 import SeqVerif.Consistency.Keywords
 import SeqVerif.Consistency.LexerClasses
+import SeqVerif.Consistency.LoaderCons
 import SeqVerif.Consistency.MergeAggsCons
 import SeqVerif.Consistency.MergeQPR
 import SeqVerif.Consistency.MetaCodec
@@ -49,6 +53,7 @@ import SeqVerif.Consistency.Positions
 import SeqVerif.Consistency.ProtoDocs
 import SeqVerif.Consistency.ProxyApiCons
 import SeqVerif.Consistency.ProxyFracLife
+import SeqVerif.Consistency.ScatterBatched
 import SeqVerif.Consistency.SealSync
 import SeqVerif.Consistency.Seeds
 import SeqVerif.Consistency.SeedsB
@@ -57,6 +62,7 @@ import SeqVerif.Consistency.SeedsD
 import SeqVerif.Consistency.ShardCode
 import SeqVerif.Consistency.SysHyps
 import SeqVerif.Consistency.SysHypsB
+import SeqVerif.Consistency.SysJunction
 import SeqVerif.Consistency.TimeRule
 import SeqVerif.Consistency.TimeRuleBuckets
 import SeqVerif.Consistency.TokenTable
